@@ -322,6 +322,8 @@ class Interp(object):
             return self.call_node(fn.node, fn.env, fn.env.globals, args, kwargs, fn.defaults,
                                   fn.kw_defaults, fn.__name__)
         if isinstance(fn, types.MethodType):
+            if getattr(fn.__self__, "_pyvc_model", False):
+                return fn(*args, **kwargs)
             return self.call(fn.__func__, [fn.__self__] + list(args), kwargs)
         if isinstance(fn, types.FunctionType) and self.should_interpret(fn):
             return self.call_real_function(fn, args, kwargs)
@@ -834,6 +836,8 @@ class Interp(object):
         return self.binop(type(e.op), self.eval(e.left, env), self.eval(e.right, env))
 
     def binop(self, op, a, b, inplace=False):
+        if inplace and op is ast.Add and isinstance(a, list) and isinstance(b, SSeq):
+            return self.models.container_method(a, "__iadd__", [b], {})
         if isinstance(a, Sym) or isinstance(b, Sym) or (op is ast.Mod and isinstance(a, str) and has_sym(b)):
             return self.models.binop(op, a, b)
         a2 = self.user_binop(op, a, b)
